@@ -161,9 +161,13 @@ fn must_quote(s: &[u8]) -> bool {
     // https://yaml.org/spec/1.2.2/#912-document-markers
     let is_doc_marker = |s: &[u8]| matches!(s, b"---" | b"...");
 
-    // number overapproximation
-    let is_pos_num = |s: &[u8]| s.first().is_some_and(u8::is_ascii_digit);
-    let is_num = |s: &[u8]| is_pos_num(s.strip_prefix(b"-").unwrap_or(s));
+    // number overapproximation: an optional sign, followed by a digit or
+    // a dot (as in `.5`, `+.inf`), is read back as number when unquoted
+    let is_pos_num = |s: &[u8]| s.first().is_some_and(|c| c.is_ascii_digit() || *c == b'.');
+    let is_num = |s: &[u8]| match s {
+        [b'-' | b'+', rest @ ..] => is_pos_num(rest),
+        _ => is_pos_num(s),
+    };
 
     s == b"~"
         || is_doc_marker(s)
